@@ -376,3 +376,37 @@ Print Assumptions C14_src_new_required.
 (* the side conditions are satisfiable and the generated functions run: Struct/DefineSrcProofs.v
    ex_make_signature, ex_get_base_info, ex_block_invalid_consts, ex_apply_default, ex_apply_default_oracle,
    ex_new_statements *)
+
+(* ------------------------------------------------------------------ StructMeta.__new__ as a whole *)
+(* The GENERATED composition of the statements of StructMeta.__new__ (Gen/DefineSrc.v [StructMeta_new], in source
+   order), run on the Python-level view of a class statement, yields [define]'s result: the same class description
+   (read off the class object: [klass_cells]) or the same exception.  Domain: [new_domain] (boolean);
+   the calls outside the translation and the completion of __annotations__: [new_contracts]; satisfiable:
+   Struct/DefineNewExample.v [x_new_is_define].  [define_new] is [define] in the order of the source's checks;
+   [order_ok] excludes the two-fault statements on which the orders differ ([x_order_differs]). *)
+From TP Require Import Struct.DefineNewProofs.
+
+Theorem C14_src_new_is_define : forall re_match e gd g extra so X s pre ents ann cd0 p_cls fac h0,
+    new_domain re_match e gd g extra s pre ann = true -> so_ok so -> dict_view s pre ents ann ->
+    new_contracts re_match e gd g extra so X s pre ents ann cd0 p_cls fac ->
+    mapM (init_member re_match e) (s_members s) = Ok pre ->
+    mheap gd g s g extra ann h0 pre -> h0 (constsobj s) n_dict_content = None ->
+    match define_new re_match e gd g s pre with
+    | Ok k => exists h' cd',
+        StructMeta_new so X h0 p_cls (PStr (s_name s)) (PTuple (v_refs (s_bases s))) cd0 = Ok (h', ref (s_name s), cd') /\
+        klass_cells s h' k
+    | Raise x => StructMeta_new so X h0 p_cls (PStr (s_name s)) (PTuple (v_refs (s_bases s))) cd0 = Raise x
+    end /\
+    (forall k, define re_match e gd g s = Ok k <-> define_new re_match e gd g s pre = Ok k) /\
+    (order_ok re_match e gd g s pre = true -> define re_match e gd g s = define_new re_match e gd g s pre).
+Proof. exact new_is_define. Qed.
+
+Theorem C14_src_define_new_is_define : forall re_match e gd g s pre,
+    has_dup_str (map fst (s_members s)) = false -> s_keys_of s = [] ->
+    mapM (init_member re_match e) (s_members s) = Ok pre ->
+    (forall k, define re_match e gd g s = Ok k <-> define_new re_match e gd g s pre = Ok k) /\
+    (order_ok re_match e gd g s pre = true -> define re_match e gd g s = define_new re_match e gd g s pre).
+Proof. exact define_new_is_define. Qed.
+
+Print Assumptions C14_src_new_is_define.
+Print Assumptions C14_src_define_new_is_define.
